@@ -33,6 +33,11 @@ func main() {
 		os.MkdirAll(plotDir, 0o755)
 		defer os.RemoveAll(plotDir)
 	}
+	if *engine == "csv" {
+		csvDir = *out + ".files"
+		os.MkdirAll(csvDir, 0o755)
+		defer os.RemoveAll(csvDir)
+	}
 	root := NewRng(*seed)
 	run := func(i int) {
 		r := root.Fork(i)
